@@ -73,8 +73,9 @@ func validateBlipBody(ctx context.Context, rawBody []byte, doc *Document) error 
 	// Prevent disallowed internal properties from being used
 	disallowed := []string{base.SyncPropertyName, BodyId, BodyRev, BodyDeleted, BodyRevisions}
 	for _, prop := range disallowed {
-		// Only unmarshal if raw body contains the disallowed property
-		if bytes.Contains(rawBody, []byte(`"`+prop+`"`)) {
+		// Only unmarshal if raw body contains the disallowed property, or a backslash (a JSON member name can be
+		// written with escapes, e.g. "\u005fid", in which case the byte search cannot rule the property out)
+		if bytes.Contains(rawBody, []byte(`"`+prop+`"`)) || bytes.IndexByte(rawBody, '\\') >= 0 {
 			if _, ok := doc.Body(ctx)[prop]; ok {
 				return base.NewHTTPError(http.StatusNotFound, "top-level property '"+prop+"' is a reserved internal property")
 			}
